@@ -28,7 +28,22 @@ EXTENDS Integers, Sequences, FiniteSets
 
 Ascii == " !\"#$%&'()*+,-./0123456789:;<=>?@ABCDEFGHIJKLMNOPQRSTUVWXYZ[\\]^_`abcdefghijklmnopqrstuvwxyz{|}~"
 Ord(c) == 31 + CHOOSE i \in 1..95 : SubSeq(Ascii, i, i) = c
-S(str) == [i \in 1..Len(str) |-> Ord(SubSeq(str, i, i))]
+Cps(str) == [i \in 1..Len(str) |-> Ord(SubSeq(str, i, i))]
+
+\* The fixed pieces of markup the families are built from.  S(str) looks the piece up in a table that
+\* is computed once (Cps walks the string character by character, which is too slow to repeat for
+\* every element of a 100 000 character text).
+Markup ==
+  { "<!DOCTYPE r [", "]>", "<a>", "</a>", "<r>", "<a/>",
+    "</r>", " a", "=\"v\"", "<r", "/>", "x",
+    "<r><!--", "--></r>", "<r a=\"", "x ", "\"/>", "<r><![CDATA[",
+    "<&", "]]></r>", "&#65;&lt;", "\">", "&#x42;&amp;", "<!ELEMENT r ",
+    ">", "<r/>", "(", "a", "|b)", "(b|",
+    ")", ",b)", "(b,", "((", "|b)*,b)+", "<!ENTITY e",
+    " \"&e", ";\">", "<r>&e0001;</r>", "<r a=\"&e0001;\"/>", " \"v\">", ";&e",
+    "<a b=\"1\" c='2'>x", "y</a>" }
+STab == [str \in Markup |-> Cps(str)]
+S(str) == STab[str]
 
 \* x repeated n times, built without recursion (n may be 200 000)
 Rep(x, n) == [i \in 1..(n * Len(x)) |-> x[((i - 1) % Len(x)) + 1]]
@@ -57,6 +72,9 @@ DtdClose == S("]>")
 
 \* n nested elements
 Deep(n) == Rep(S("<a>"), n) \o Rep(S("</a>"), n)
+
+\* n nested elements that carry attributes and text
+DeepMixed(n) == Rep(S("<a b=\"1\" c='2'>x"), n) \o Rep(S("y</a>"), n)
 
 \* n children / n attributes / long character data
 ManyChildren(n) == S("<r>") \o Rep(S("<a/>"), n) \o S("</r>")
@@ -99,66 +117,67 @@ Laughs(n) == DtdOpen \o Pieces(n, LaughPiece) \o S("<!ENTITY e") \o D4(n + 1) \o
 
 \* constructs the library does not support, or odd ones: they must surface as Return or Error
 OddDocs == <<
-  S("<!DOCTYPE r [<!ENTITY % p \"x\">]><r/>"),                               \* PE declaration
-  S("<!DOCTYPE r [<!ENTITY % p \"x\">%p;]><r/>"),                            \* PE declaration + reference
-  S("<!DOCTYPE r [%p;]><r/>"),                                               \* PE reference, undeclared
-  S("<!DOCTYPE r [ %p; ]><r a=\"1\">x</r>"),
-  S("<!DOCTYPE r [<!ENTITY e \"%p;\">]><r/>"),                               \* PE reference in an entity value
-  S("<!DOCTYPE r [<!ENTITY e \"%p;\">]><r a=\"&e;\"/>"),                     \*   ... read through an attribute
-  S("<!DOCTYPE r [<!ENTITY e \"%p;\">]><r>&e;</r>"),                         \*   ... read through content
-  S("<!DOCTYPE r [<!ENTITY % p \"x\"><!ENTITY e \"a%p;b\">]><r a=\"&e;\">&e;</r>"),
-  S("<!DOCTYPE r [<!ENTITY % p SYSTEM \"p.ent\">%p;]><r/>"),                 \* external PE
-  S("<!DOCTYPE r [<!ENTITY % p PUBLIC \"pub\" \"p.ent\">]><r/>"),
-  S("<!DOCTYPE r [<![INCLUDE[<!ELEMENT r ANY>]]>]><r/>"),                    \* conditional sections
-  S("<!DOCTYPE r [<![IGNORE[<!ELEMENT r ANY>]]>]><r/>"),
-  S("<!DOCTYPE r [<![%p;[<!ELEMENT r ANY>]]>]><r/>"),
-  S("<!DOCTYPE r SYSTEM \"r.dtd\"><r/>"),                                    \* external subset
-  S("<!DOCTYPE r PUBLIC \"-//X//Y\" \"r.dtd\" [<!ENTITY x SYSTEM \"x.xml\">]><r>&x;</r>"),  \* external entity used
-  S("<!DOCTYPE r [<!ENTITY x SYSTEM \"x.xml\">]><r a=\"&x;\"/>"),            \*   ... in an attribute
-  S("<!DOCTYPE r [<!NOTATION n SYSTEM \"n\"><!ENTITY u SYSTEM \"u\" NDATA n>]><r a=\"&u;\">&u;</r>"), \* unparsed entity used
-  S("<!DOCTYPE r [<!ENTITY u SYSTEM \"u\" NDATA nn>]><r/>"),                 \* undeclared notation
-  S("<!DOCTYPE r [<!ELEMENT r (%p;)>]><r/>"),                                \* PE reference inside a declaration
-  S("<!DOCTYPE r [<!ATTLIST r a %t; #IMPLIED>]><r/>"),
-  S("<!DOCTYPE r [<!ATTLIST r a CDATA \"&u;\">]><r/>"),                      \* default with undeclared entity
-  S("<!DOCTYPE r [<!ENTITY e \"&e;\"><!ATTLIST r a CDATA \"&e;\">]><r/>"),   \* default with a cyclic entity
-  S("<!DOCTYPE r [<!ENTITY e \"<r>\">]><r>&e;</r>"),                         \* unbalanced replacement text
-  S("<!DOCTYPE r [<!ENTITY e \"&#60;\">]><r a=\"&e;\">&e;</r>"),             \* '<' via a character reference
-  S("<!DOCTYPE r [<!ENTITY e \"&#38;e;\">]><r a=\"&e;\">&e;</r>"),           \* '&e;' via a character reference
-  S("<!DOCTYPE r [<!ENTITY e \"&#x110000;\">]><r a=\"&e;\">&e;</r>"),        \* not a character
-  S("<r a=\"&#x110000;\">&#99999999999999999999;</r>"),
-  S("<r a=\"&u;\">&u;</r>"),                                                 \* undeclared entity
-  S("<!DOCTYPE r [<!ENTITY e \"v\">]><r>&e</r>"),
-  S("<!DOCTYPE r [<!ELEMENT r (a,,b)>]><r/>"),
-  S("<!DOCTYPE r [<!ELEMENT r ()>]><r/>"),
-  S("<!DOCTYPE r [<!ELEMENT r (a|b,c)>]><r/>"),
-  S("<!DOCTYPE r [<!ELEMENT r (#PCDATA|a)>]><r/>"),
-  S("<!DOCTYPE r [<!ATTLIST r>]><r/>"),
-  S("<!DOCTYPE r [<!ATTLIST r a NOTATION (n) #IMPLIED>]><r a=\"n\"/>"),
-  S("<!DOCTYPE r [<!ATTLIST r a (x|y) #FIXED \"z\">]><r/>"),
-  S("<!DOCTYPE r [<!ATTLIST q a CDATA \"d\"><!ATTLIST r a CDATA \"d\" a CDATA \"e\">]><r/>"),
-  S("<!DOCTYPE r [<!ATTLIST r xmlns CDATA \"u\" xmlns:p CDATA \"v\" p:a CDATA \"w\">]><r/>"),
-  S("<!DOCTYPE r []>"),                                                      \* no root element
-  S("<!DOCTYPE r ["),
-  S("<?xml version=\"1.0\"?>"),
-  S("<?xml version=\"1.1\" encoding=\"UTF-16\" standalone=\"maybe\"?><r/>"),
-  S("<r xmlns:p=\"\"><p:a q:b=\"1\"/></r>"),                                 \* unbound / undeclared prefixes
-  S("<r xmlns:xmlns=\"u\" xmlns:xml=\"v\" xml:a=\"1\"/>"),
-  S("<p:r/>"),
-  S("<r a=\"1\" a=\"2\"/>"),
-  S("<r><![CDATA[]]]]><![CDATA[>]]></r>"),
-  S("<r><!----><!-- - --><?p?><?p ??></r>"),
-  S("") >>
+  Cps("<!DOCTYPE r [<!ENTITY % p \"x\">]><r/>"),                               \* PE declaration
+  Cps("<!DOCTYPE r [<!ENTITY % p \"x\">%p;]><r/>"),                            \* PE declaration + reference
+  Cps("<!DOCTYPE r [%p;]><r/>"),                                               \* PE reference, undeclared
+  Cps("<!DOCTYPE r [ %p; ]><r a=\"1\">x</r>"),
+  Cps("<!DOCTYPE r [<!ENTITY e \"%p;\">]><r/>"),                               \* PE reference in an entity value
+  Cps("<!DOCTYPE r [<!ENTITY e \"%p;\">]><r a=\"&e;\"/>"),                     \*   ... read through an attribute
+  Cps("<!DOCTYPE r [<!ENTITY e \"%p;\">]><r>&e;</r>"),                         \*   ... read through content
+  Cps("<!DOCTYPE r [<!ENTITY % p \"x\"><!ENTITY e \"a%p;b\">]><r a=\"&e;\">&e;</r>"),
+  Cps("<!DOCTYPE r [<!ENTITY % p SYSTEM \"p.ent\">%p;]><r/>"),                 \* external PE
+  Cps("<!DOCTYPE r [<!ENTITY % p PUBLIC \"pub\" \"p.ent\">]><r/>"),
+  Cps("<!DOCTYPE r [<![INCLUDE[<!ELEMENT r ANY>]]>]><r/>"),                    \* conditional sections
+  Cps("<!DOCTYPE r [<![IGNORE[<!ELEMENT r ANY>]]>]><r/>"),
+  Cps("<!DOCTYPE r [<![%p;[<!ELEMENT r ANY>]]>]><r/>"),
+  Cps("<!DOCTYPE r SYSTEM \"r.dtd\"><r/>"),                                    \* external subset
+  Cps("<!DOCTYPE r PUBLIC \"-//X//Y\" \"r.dtd\" [<!ENTITY x SYSTEM \"x.xml\">]><r>&x;</r>"),  \* external entity used
+  Cps("<!DOCTYPE r [<!ENTITY x SYSTEM \"x.xml\">]><r a=\"&x;\"/>"),            \*   ... in an attribute
+  Cps("<!DOCTYPE r [<!NOTATION n SYSTEM \"n\"><!ENTITY u SYSTEM \"u\" NDATA n>]><r a=\"&u;\">&u;</r>"), \* unparsed entity used
+  Cps("<!DOCTYPE r [<!ENTITY u SYSTEM \"u\" NDATA nn>]><r/>"),                 \* undeclared notation
+  Cps("<!DOCTYPE r [<!ELEMENT r (%p;)>]><r/>"),                                \* PE reference inside a declaration
+  Cps("<!DOCTYPE r [<!ATTLIST r a %t; #IMPLIED>]><r/>"),
+  Cps("<!DOCTYPE r [<!ATTLIST r a CDATA \"&u;\">]><r/>"),                      \* default with undeclared entity
+  Cps("<!DOCTYPE r [<!ENTITY e \"&e;\"><!ATTLIST r a CDATA \"&e;\">]><r/>"),   \* default with a cyclic entity
+  Cps("<!DOCTYPE r [<!ENTITY e \"<r>\">]><r>&e;</r>"),                         \* unbalanced replacement text
+  Cps("<!DOCTYPE r [<!ENTITY e \"&#60;\">]><r a=\"&e;\">&e;</r>"),             \* '<' via a character reference
+  Cps("<!DOCTYPE r [<!ENTITY e \"&#38;e;\">]><r a=\"&e;\">&e;</r>"),           \* '&e;' via a character reference
+  Cps("<!DOCTYPE r [<!ENTITY e \"&#x110000;\">]><r a=\"&e;\">&e;</r>"),        \* not a character
+  Cps("<r a=\"&#x110000;\">&#99999999999999999999;</r>"),
+  Cps("<r a=\"&u;\">&u;</r>"),                                                 \* undeclared entity
+  Cps("<!DOCTYPE r [<!ENTITY e \"v\">]><r>&e</r>"),
+  Cps("<!DOCTYPE r [<!ELEMENT r (a,,b)>]><r/>"),
+  Cps("<!DOCTYPE r [<!ELEMENT r ()>]><r/>"),
+  Cps("<!DOCTYPE r [<!ELEMENT r (a|b,c)>]><r/>"),
+  Cps("<!DOCTYPE r [<!ELEMENT r (#PCDATA|a)>]><r/>"),
+  Cps("<!DOCTYPE r [<!ATTLIST r>]><r/>"),
+  Cps("<!DOCTYPE r [<!ATTLIST r a NOTATION (n) #IMPLIED>]><r a=\"n\"/>"),
+  Cps("<!DOCTYPE r [<!ATTLIST r a (x|y) #FIXED \"z\">]><r/>"),
+  Cps("<!DOCTYPE r [<!ATTLIST q a CDATA \"d\"><!ATTLIST r a CDATA \"d\" a CDATA \"e\">]><r/>"),
+  Cps("<!DOCTYPE r [<!ATTLIST r xmlns CDATA \"u\" xmlns:p CDATA \"v\" p:a CDATA \"w\">]><r/>"),
+  Cps("<!DOCTYPE r []>"),                                                      \* no root element
+  Cps("<!DOCTYPE r ["),
+  Cps("<?xml version=\"1.0\"?>"),
+  Cps("<?xml version=\"1.1\" encoding=\"UTF-16\" standalone=\"maybe\"?><r/>"),
+  Cps("<r xmlns:p=\"\"><p:a q:b=\"1\"/></r>"),                                 \* unbound / undeclared prefixes
+  Cps("<r xmlns:xmlns=\"u\" xmlns:xml=\"v\" xml:a=\"1\"/>"),
+  Cps("<p:r/>"),
+  Cps("<r a=\"1\" a=\"2\"/>"),
+  Cps("<r><![CDATA[]]]]><![CDATA[>]]></r>"),
+  Cps("<r><!----><!-- - --><?p?><?p ??></r>"),
+  Cps("") >>
 Odd(n) == OddDocs[n]
 
 -----------------------------------------------------------------------------
 (* the table: family name -> renderer, bound N, declared length bound      *)
 
-Families == { "Deep", "ManyChildren", "ManyAttrs", "LongText", "LongComment", "LongAttr", "LongCData",
+Families == { "Deep", "DeepMixed", "ManyChildren", "ManyAttrs", "LongText", "LongComment", "LongAttr", "LongCData",
               "ManyRefs", "GroupsL", "GroupsR", "SeqGroupsL", "SeqGroupsR", "MixGroupsL", "Parens",
               "CycleContent", "CycleAttr", "ChainContent", "ChainAttr", "Laughs", "Odd" }
 
 Render(f, n) ==
   CASE f = "Deep" -> Deep(n)
+    [] f = "DeepMixed" -> DeepMixed(n)
     [] f = "ManyChildren" -> ManyChildren(n)
     [] f = "ManyAttrs" -> ManyAttrs(n)
     [] f = "LongText" -> LongText(n)
@@ -181,13 +200,14 @@ Render(f, n) ==
 
 \* The bound N of each family.  Exponential re-parsing / re-expansion cannot meet the bounds of the
 \* group and entity families (2^40 steps); the linear families are bounded by what a caller may
-\* reasonably hand to a parser (20 000 nested elements, 200 000 characters, 5 000 attributes).
+\* hand to a parser and a quadratic algorithm still finishes within the limit (20 000 nested elements
+\* or parentheses, 50 000 characters / children, 2 000 attributes).
 MaxN(f) ==
-  CASE f = "Deep" -> 20000
+  CASE f \in {"Deep", "DeepMixed", "Parens"} -> 20000
     [] f \in {"ManyChildren", "LongText", "LongComment", "LongAttr", "LongCData"} -> 50000
     [] f = "ManyAttrs" -> 2000
     [] f = "ManyRefs" -> 5000
-    [] f \in {"GroupsL", "GroupsR", "SeqGroupsL", "SeqGroupsR", "MixGroupsL", "Parens"} -> 40
+    [] f \in {"GroupsL", "GroupsR", "SeqGroupsL", "SeqGroupsR", "MixGroupsL"} -> 40
     [] f \in {"CycleContent", "CycleAttr"} -> 40
     [] f \in {"ChainContent", "ChainAttr"} -> 1000
     [] f = "Laughs" -> 12
@@ -196,6 +216,7 @@ MaxN(f) ==
 \* Every family is linear in n:  Len(Render(f, n)) <= A(f) * n + B(f)
 LenA(f) ==
   CASE f = "Deep" -> 7
+    [] f = "DeepMixed" -> 22
     [] f = "ManyChildren" -> 4
     [] f = "ManyAttrs" -> 10
     [] f \in {"LongText", "LongComment"} -> 1
